@@ -1,3 +1,4 @@
+use std::cell::Cell;
 use std::sync::atomic::AtomicUsize;
 use std::sync::atomic::Ordering;
 
@@ -5,9 +6,48 @@ lazy_static! {
     pub static ref ARGNAME_CTR: AtomicUsize = AtomicUsize::new(0);
 }
 
+thread_local! {
+    // Some(next number) while a compilation on this thread numbers its own names.
+    static SCOPED_CTR: Cell<Option<usize>> = const { Cell::new(None) };
+}
+
+/// Gives one compilation its own numbering of generated names, starting from
+/// zero, for as long as the value lives.  Decisions downstream of renaming
+/// (the order in which common subexpressions are considered, names that reach
+/// the output in older dialects) depend on these numbers, so without this the
+/// emitted code depended on how many names had been generated earlier in the
+/// process and on other threads compiling at the same time.  Scopes nest: a
+/// compilation started while another one is in progress on the same thread
+/// gets fresh numbering and the outer numbering resumes afterward.
+pub struct GensymScope(Option<usize>);
+
+impl GensymScope {
+    pub fn new() -> Self {
+        GensymScope(SCOPED_CTR.with(|c| c.replace(Some(0))))
+    }
+}
+
+impl Default for GensymScope {
+    fn default() -> Self {
+        GensymScope::new()
+    }
+}
+
+impl Drop for GensymScope {
+    fn drop(&mut self) {
+        SCOPED_CTR.with(|c| c.set(self.0));
+    }
+}
+
 /// As (gensym ...) in lisp.
 pub fn gensym(name: Vec<u8>) -> Vec<u8> {
-    let count = ARGNAME_CTR.fetch_add(1, Ordering::SeqCst);
+    let count = SCOPED_CTR.with(|c| match c.get() {
+        Some(n) => {
+            c.set(Some(n + 1));
+            n
+        }
+        None => ARGNAME_CTR.fetch_add(1, Ordering::SeqCst),
+    });
     let mut result_vec = name;
     let number_value = format!("{}", count + 1);
     result_vec.append(&mut "_$_".as_bytes().to_vec());
